@@ -59,7 +59,7 @@ CLAIMS = {
             "Theorems C07_drf (in every reachable state a thread about to write a guarded field has no concurrent reader/writer of a guarded field) and C07_atomic (when a reader leaves its critical section everything it read there equals the shared state "
             "at that instant and no writer is inside a critical section), by induction over arbitrary traces of arbitrarily many threads running well-locked programs (Props/C07.lean, Model/Conc.lean); C07_facts / C07_wrap_snapshot / C07_only_these / C07_immutable "
             "(decide over facts regenerated from middleware.go on every run): the instruction lists of Wrap's handler, Reconfigure, SetDebug, Config, NewMiddleware are well-locked with one critical section each, Wrap reads both fields inside its read region, "
-            "no other function touches the guarded fields, the request path never writes through the configuration. Tie: `schedule` suite (Reconfigure/SetDebug/Config executed from inside Header(), WriteHeader and the wrapped handler; response must be that of the "
+            "no other function touches the guarded fields, the request path never writes through the configuration; C07_published_immutable: every statement that writes into an internalConfig value (regenerated list function|field|kind) sits in a construction function, so neither Config()/newConfig nor the request path writes into a published configuration. Tie: `schedule` suite (Reconfigure/SetDebug/Config executed from inside Header(), WriteHeader and the wrapped handler; response must be that of the "
             "entry state, next request that of the new state), `stress` suite (every response equals that of one of the four states; thorough tier under go build -race), `history` suite.",
             '6/C07', 'PARTIAL w.r.t. the Go runtime: that sync.RWMutex implements the modelled lock semantics, that the Go memory model makes lock-ordered accesses race-free, and that the extracted instruction lists are what the compiled code does, are trusted; the race detector and the schedule-point harness exercise them.'),
     'C08': ('proof', 'Lean 4 theorem on the sequential state machine + history correspondence',
